@@ -7,7 +7,7 @@ import sim.bootstrap  # noqa: F401
 import pydiverse.transform as pdt
 from pydiverse.transform._internal.pipe.table import Table as _Table
 from sim import exprs as X
-from sim.machine import Expect, PTable, Skip
+from sim.machine import Expect, PTable, Skip, join_too_big
 from sim.model import Tok
 from sim.seams import UUID_REGIMES
 
@@ -581,6 +581,8 @@ class OpsMixin:
         self.check_recipe_refs(step)
         how = step["how"]
         on = step["on"]
+        if join_too_big(l, r):
+            raise Skip("join result could exceed the row cap")
 
         def model_fn(new_id):
             lm, rm = l.m, r.m
